@@ -841,15 +841,18 @@ type AnyNode struct {
 }
 
 // NewAny returns a new AnyNode with first as its first index and last as its
-// last. If either number is negative it's considered unbounded. Numbers
-// greater than [math.MaxUint32] (or [math.MaxInt] on 32-bit systems) will
-// max out at that number.
+// last. If either number is negative, or [math.MaxUint32] or greater, it's
+// considered unbounded.
 func NewAny(first, last int) *AnyNode {
+	// Only math.MaxUint32 itself, the marker for unbounded, cannot be stored.
+	// (Comparing with min(math.MaxUint32, math.MaxInt) made the level
+	// 2147483647, which the parser accepts, unbounded where int has 32 bits:
+	// there $.**{2147483647} printed as $.**{last} and selected the leaves.)
 	n := &AnyNode{first: math.MaxUint32, last: math.MaxUint32}
-	if first >= 0 && first < min(math.MaxUint32, math.MaxInt) {
+	if first >= 0 && uint64(first) < math.MaxUint32 {
 		n.first = uint32(first)
 	}
-	if last >= 0 && last < min(math.MaxUint32, math.MaxInt) {
+	if last >= 0 && uint64(last) < math.MaxUint32 {
 		n.last = uint32(last)
 	}
 	return n
